@@ -44,7 +44,7 @@ func init() {
 					}
 				}
 			}
-			for t := 0; t < 8; t++ {
+			for t := 0; t < 9; t++ {
 				cases = append(cases, Case{ID: fmt.Sprintf("navigation text=%d", t), Pkg: "internal/lsp", Fn: "ZZC19Nav", Args: []string{fmt.Sprint(t)}, Tag: "navigation"})
 			}
 			// version numbers chosen by the editor (any order)
